@@ -34,7 +34,15 @@ struct SimAlloc
     bool passthrough = false; // memory comes from the library's own default allocator a_alloc_ (malloc/realloc/free)
     unsigned char junk_seed = 0x5b;
     void *host_alloc(size_t n) { return passthrough ? a_alloc_(nullptr, n ? n : 1) : malloc(n ? n : 1); }
-    void host_free(void *p) { if (passthrough) { if (a_alloc_(p, 0) != nullptr) error("default-allocator-contract", "a_alloc_(p, 0) did not return NULL"); } else free(p); }
+    void host_free(void *p)
+    {
+        if (!passthrough) { free(p); return; }
+        if (a_alloc_(p, 0) != nullptr) error("default-allocator-contract", "a_alloc_(p, 0) did not return NULL");
+#ifdef SIM_ASAN
+        // the C library's free() leaves the block poisoned; a default allocator that returns without releasing does not
+        if (p && !__asan_address_is_poisoned(p)) error("default-allocator-did-not-release", "a_alloc_(p, 0) returned, but the block is still allocated");
+#endif
+    }
 
     // faults
     int fmode = F_NONE;
@@ -202,6 +210,7 @@ struct SimAlloc
                 return nullptr;
             }
             live.erase(it);
+            if (n2 != addr && !__asan_address_is_poisoned(addr)) error("default-allocator-did-not-release", "a_alloc_(p, n) moved the block, but the old one is still allocated");
             if (size > nb.size) fill_junk((unsigned char *)n2 + nb.size, size - nb.size);
             nb.size = size; nb.cap = size; nb.base = n2; nb.op = cur_op;
             freed[(uintptr_t)addr] = nb.id; freed.erase((uintptr_t)n2);
